@@ -1,5 +1,5 @@
 (* Pinned statements for C02: a changed statement or a new axiom fails the check. *)
-From SwimV Require Import Model.MapLane Proofs.MapQueueProofs Proofs.MapLaneProofs Props.C02.
+From SwimV Require Import Model.MapLane Proofs.MapQueueProofs Proofs.MapLaneProofs Proofs.MapTwoStageProofs Props.C02.
 From Coq Require Import Permutation.
 Open Scope N_scope.
 Check (C02_queue_converges) : (forall d h ops, h < W -> len ops + 1 < W -> let '(q, src, rep) := track d (empty_at h) None None ops in effs d (events q) rep = src /\ unique_cls (events q) /\ (events q = [] -> rep = src)).
@@ -26,3 +26,5 @@ Check (C02_drop_take_counts) : (forall ks n, length (drop_or_take ks KDrop n) = 
 Print Assumptions C02_drop_take_counts.
 Check (C02_take_drop_exact) : (forall l kind n d, NoDup (em_classes (l_map l)) -> lookup d (l_map (lane_drop_take l kind n)) = if existsb (fun k => fst k =? d) (drop_or_take (map fst (l_map l)) kind n) then None else lookup d (l_map l)).
 Print Assumptions C02_take_drop_exact.
+Check (C02_two_stage_converges) : (forall keep1 keep2 d h1 h2 ops, h1 < W -> h2 < W -> 2 * len ops + 2 < W -> let '(s, src, mid, rep) := ts_track keep1 keep2 d {| t_lane := empty_at h1; t_rt := empty_at h2 |} None None None ops in effs d (events (t_lane s)) (effs d (events (t_rt s)) rep) = src /\ (events (t_lane s) = [] -> events (t_rt s) = [] -> rep = src)).
+Print Assumptions C02_two_stage_converges.
